@@ -2,7 +2,7 @@
    print what it exposes, compare every exposed snapshot with the same snapshot of a reference archive.
 
    one-shot:  c07_open <image> [<reference>]
-   batch:     c07_open --batch        (stdin: one "<image> <reference|->" per line; each image is opened in a
+   batch:     c07_open --batch        (stdin: one "<image> <reference|-> [mode]" per line; each image is opened in a
                                        forked child; after the child's lines the parent prints "status <n>",
                                        n = exit code, or -signal)
    child output:  open null | open error | open ok nblobs=<n>
@@ -16,6 +16,49 @@
 #include <unistd.h>
 #include <sys/wait.h>
 #include "rebound.h"
+
+/* other public C entry points, same image:
+     mode 1  reb_simulationarchive_create_from_file_with_messages on a caller-owned (zeroed) handle  (what Python uses)
+     mode 2  reb_simulationarchive_init_from_buffer_with_messages on the file contents
+     mode 3  reb_simulation_create_from_file(img, -1)
+   output:  entry <mode> warnings=<w> nblobs=<n> inf=<0|1>   |   entry 3 sim=<null|ok> t=<hex> */
+static int other(const char* img, int mode){
+    enum reb_simulation_binary_error_codes w = REB_SIMULATION_BINARY_WARNING_NONE;
+    if (mode==3){
+        struct reb_simulation* r = reb_simulation_create_from_file((char*)img, -1);
+        if (!r){ printf("entry 3 sim=null t=0\ndone\n"); return 0; }
+        uint64_t tb; memcpy(&tb,&(r->t),8);
+        printf("entry 3 sim=ok t=%016llx\n",(unsigned long long)tb);
+        fflush(stdout);
+        reb_simulation_free(r);
+        printf("done\n");
+        return 0;
+    }
+    struct reb_simulationarchive* sa = calloc(1,sizeof(struct reb_simulationarchive));
+    char* buf = NULL;
+    if (mode==1){
+        reb_simulationarchive_create_from_file_with_messages(sa, img, NULL, &w);
+    }else{
+        FILE* f = fopen(img,"rb"); if (!f) return 3;
+        fseek(f,0,SEEK_END); long n = ftell(f); fseek(f,0,SEEK_SET);
+        buf = malloc(n>0?n:1); if (n>0 && fread(buf,1,n,f)!=(size_t)n) return 3; fclose(f);
+        reb_simulationarchive_init_from_buffer_with_messages(sa, buf, n, NULL, &w);
+    }
+    int err = (w & (REB_SIMULATION_BINARY_ERROR_NOFILE|REB_SIMULATION_BINARY_ERROR_SEEK|REB_SIMULATION_BINARY_ERROR_OLD)) != 0;
+    printf("entry %d warnings=%d nblobs=%lld inf=%d\n", mode, (int)w, err?0LL:(long long)sa->nblobs, sa->inf!=NULL);
+    fflush(stdout);
+    if (!err){
+        for (int64_t i=0;i<sa->nblobs;i++){
+            struct reb_simulation* r = reb_simulation_create_from_simulationarchive(sa,i);
+            printf("load %lld %s\n",(long long)i, r?"ok":"null");
+            if (r) reb_simulation_free(r);
+        }
+    }
+    reb_simulationarchive_free(sa);   /* the caller owns the handle in every case */
+    free(buf);
+    printf("done\n");
+    return 0;
+}
 
 static int one(const char* img, const char* refname){
     /* reference first, so that a handle freed by the library is not silently re-used for it */
@@ -66,13 +109,13 @@ int main(int argc, char** argv){
     if (strcmp(argv[1],"--batch")!=0) return one(argv[1], argc>2?argv[2]:NULL);
     char line[4096];
     while (fgets(line,sizeof(line),stdin)){
-        char a[2048], b[2048];
-        if (sscanf(line,"%2047s %2047s",a,b)!=2) continue;
+        char a[2048], b[2048]; int mode = 0;
+        if (sscanf(line,"%2047s %2047s %d",a,b,&mode)<2) continue;
         fflush(stdout);
         pid_t pid = fork();
         if (pid==0){
             alarm(20);
-            int rc = one(a,b);
+            int rc = mode ? other(a,mode) : one(a,b);
             fflush(stdout);
             _exit(rc);
         }
